@@ -34,7 +34,7 @@ EXPLANATION = ("C18: on every path of the real outer function: the returned mask
                "return is the one saved at entry; the arguments handed to the sampler and the crop depend only on the call's own arguments (a call preceded "
                "by a different call gives the same result as in a fresh module state).  _poisson's calibration block has exactly calib entries per axis, "
                "inside the grid and centred, for all sizes (z3, linear integer arithmetic), and _poisson only ever stores 1 into the mask.")
-CONFIG_BUDGET_S = {"quick": 900, "thorough": 3600}
+CONFIG_BUDGET_S = {"quick": 900, "thorough": 1800}
 
 
 # --------------------------------------------------------------------------- source transformation
